@@ -13,6 +13,18 @@ import (
 	"ivgsa/internal/sym"
 )
 
+// ruleC02_shared: rules C02 shares with other properties by reference.
+func ruleC02_shared(c *Ctx) {
+	// "nothing is delivered unless ... every metadata chunk was valid": the validity conditions themselves
+	c.R.Only("C13.3", "C13.4")
+	ruleC13(c)
+	c.R.Only()
+	// "at most four curve segments per drawing operation"
+	c.R.Only("C06.6")
+	ruleC06(c)
+	c.R.Only()
+}
+
 func ruleC02_rest(c *Ctx) {
 	R := c.R
 	sty, drw := c.modeFuncs()
